@@ -162,4 +162,11 @@ inductive AstOfJsonF (reg : Reg) : List InField → List (String × JV) → List
       AstOfJsonF reg fs ((k, j) :: kvs) ((k, l) :: lkvs)
 end
 
+/-- **NaturalKind.** `j` is of the natural JSON kind for a position of type `ty`: it HAS a literal spelling there
+    (integers for `Int`; integers and floats for `Float`; strings for `String`; booleans for `Boolean`; strings and
+    integers for `ID`; a name for an enum; an array or a single value for a list; an object for an input object; …).
+    This is exactly the hypothesis under which `literal_variable_equiv` holds; outside it the statement is FALSE of today's
+    code (known finding A8: `literal_variable_equiv_refuted_cross_kind`). -/
+def NaturalKind (reg : Reg) (ty : Ty) (j : JV) : Prop := ∃ l, AstOfJson reg ty j l
+
 end PyGql.Coerce
